@@ -80,3 +80,55 @@ def expect(op, owns_connection, commit, fault, committed_before, view_before, ro
     if owns_connection:
         return list(committed_before), list(committed_before)
     return list(committed_before), after
+
+
+# ------------------------------------------------------------------------------------------------
+# sqlite type affinity (https://www.sqlite.org/datatype3.html, sections 3.1 - 3.4), for the declared-type space
+# ------------------------------------------------------------------------------------------------
+import re
+
+_INT_LITERAL = re.compile(r'^[+-]?\d+$')
+_REAL_LITERAL = re.compile(r'^[+-]?\d+\.\d+$')      # the enumerated alphabet has no exponents / bare dots / spaces
+
+
+def affinity(declared):
+    """Column affinity from the declared type (rules applied in the documented order)."""
+    d = (declared or '').upper()
+    if 'INT' in d:
+        return 'INTEGER'
+    if 'CHAR' in d or 'CLOB' in d or 'TEXT' in d:
+        return 'TEXT'
+    if 'BLOB' in d or d == '':
+        return 'BLOB'
+    if 'REAL' in d or 'FLOA' in d or 'DOUB' in d:
+        return 'REAL'
+    return 'NUMERIC'         # DATE, TIMESTAMP, NUMERIC, DECIMAL, BOOLEAN ...
+
+
+def stored(value, declared):
+    """The value sqlite keeps (and hands back through a plain DB-API connection) when `value` is inserted into
+    a column with the given declared type.  Domain: None, int, float, bytes and text without exponent notation,
+    surrounding blanks or hexadecimal digits."""
+    aff = affinity(declared)
+    if value is None or isinstance(value, bytes) or aff == 'BLOB':
+        return value
+    if aff == 'TEXT':
+        if isinstance(value, int):
+            return str(value)
+        if isinstance(value, float):
+            return repr(value)           # '1.5' (values of the alphabet print identically under %!.15g)
+        return value
+    # NUMERIC, INTEGER, REAL: text that looks like a number becomes one; other text stays text
+    v = value
+    if isinstance(v, str):
+        if _INT_LITERAL.match(v):
+            v = int(v)
+        elif _REAL_LITERAL.match(v):
+            v = float(v)
+        else:
+            return v
+    if aff == 'REAL':
+        return float(v)
+    if isinstance(v, float) and v == int(v) and abs(v) < 2 ** 51:
+        return int(v)                    # a REAL that is exactly an integer is stored as INTEGER
+    return v
